@@ -59,6 +59,19 @@ def unicode_codepoint_strxfrm(s: str) -> str:
     return s
 
 
+_ASCII_UPPER_TO_LOWER = {cp: cp + 32 for cp in range(65, 91)}
+
+
+def html_ascii_case_insensitive_strcoll(s1: str, s2: str) -> int:
+    # only the ASCII letters are folded (F&O 5.3.5), the rest is compared by codepoint
+    s1, s2 = s1.translate(_ASCII_UPPER_TO_LOWER), s2.translate(_ASCII_UPPER_TO_LOWER)
+    return 0 if s1 == s2 else -1 if s1 < s2 else 1
+
+
+def html_ascii_case_insensitive_strxfrm(s: str) -> str:
+    return s.translate(_ASCII_UPPER_TO_LOWER)
+
+
 def case_insensitive_strcoll(s1: str, s2: str) -> int:
     if s1.casefold() == s2.casefold():
         return 0
@@ -103,8 +116,8 @@ class CollationManager(context_class_base):
             self.strxfrm = unicode_codepoint_strxfrm
         elif collation == HTML_ASCII_CASE_INSENSITIVE_COLLATION:
             self.lc_collate = None
-            self.strcoll = case_insensitive_strcoll
-            self.strxfrm = case_insensitive_strxfrm
+            self.strcoll = html_ascii_case_insensitive_strcoll
+            self.strxfrm = html_ascii_case_insensitive_strxfrm
         elif collation == XQUERY_TEST_SUITE_CASEBLIND_COLLATION:
             self.lc_collate = None
             self.strcoll = case_insensitive_strcoll
